@@ -816,9 +816,54 @@ func (x *ctx) contractCall(st *state, fr *frame, con *Contract, callee *ssa.Func
 		}
 		return env(name, t)
 	}
+	// lp(...) / lpend(...) in the callee's postconditions denote instants inside the call: they are evaluated in
+	// independent unknown intermediate states (the callee's footprint havocked again), never in the post-call state
+	var mid1, mid2 *state
+	midState := func() *state {
+		m := st.clone()
+		x.applyModifies(m, pre, con, con.Mods, env)
+		return m
+	}
+	copyBack := func(m *state, n0 int) {
+		for _, f := range m.pc[n0:] {
+			if f.def {
+				st.define(f.t)
+			}
+		}
+		for id, v := range m.cells {
+			if _, ok := st.cells[id]; !ok {
+				st.cells[id] = v
+			}
+		}
+	}
 	for _, p := range pends {
-		l2 := x.applyClosure(st, p.l1, nil, env)
-		l3 := x.applyClosure(st, l2, nil, env)
+		usesLp := strings.Contains(p.cl.Expr, "lp(") || strings.Contains(p.cl.Expr, "lpend(")
+		if !usesLp {
+			l2 := x.applyClosure(st, p.l1, nil, env)
+			l3 := x.applyClosure(st, l2, nil, env)
+			r := x.applyClosure(st, l3, p.cl.P3, renv)
+			st.assume(r.t.s)
+			continue
+		}
+		if mid1 == nil {
+			mid1, mid2 = midState(), midState()
+		}
+		for id, v := range st.cells {
+			if _, ok := mid1.cells[id]; !ok {
+				mid1.cells[id] = v
+			}
+		}
+		n1 := len(mid1.pc)
+		l2 := x.applyClosure(mid1, p.l1, nil, env)
+		copyBack(mid1, n1)
+		for id, v := range mid1.cells {
+			if _, ok := mid2.cells[id]; !ok {
+				mid2.cells[id] = v
+			}
+		}
+		n2 := len(mid2.pc)
+		l3 := x.applyClosure(mid2, l2, nil, env)
+		copyBack(mid2, n2)
 		r := x.applyClosure(st, l3, p.cl.P3, renv)
 		st.assume(r.t.s)
 	}
@@ -885,9 +930,13 @@ func (x *ctx) applyModifies(st, pre *state, con *Contract, mods []*ModItem, env 
 				key = "G:" + mi.Field
 			}
 			x.havocKey(st, key)
+		case "wholekey":
+			x.havocKey(st, mi.Field)
 		case "ghostall":
 			x.havocKey(st, x.ghostKey(mi.Ghost))
+			x.havocTableLogs(st, mi.Ghost)
 		case "ghost":
+			x.havocTableLogs(st, mi.Ghost)
 			if strings.HasPrefix(mi.Ghost, "ghost_calls_") {
 				// the argument / result log of the same callback changes with its call counter
 				short := strings.TrimPrefix(mi.Ghost, "ghost_calls_")
@@ -1024,6 +1073,52 @@ func (x *ctx) havocField(st *state, base val, bt types.Type, field string) {
 	x.fail("modifies: no field %s in %s", field, bt)
 }
 
+// havocRow replaces the row of base in the (ref-indexed) array of key by a fresh one.
+func (x *ctx) havocRow(st *state, key string, hi heapInfo, base string) {
+	key = x.akey(key)
+	var cur, full, rowSort string
+	switch {
+	case strings.HasPrefix(key, "G:"):
+		if len(hi.ksorts) == 0 || hi.ksorts[0] != sRef {
+			x.havocKey(st, key)
+			return
+		}
+		cur = x.ghostArr(st, "ghost_"+strings.TrimPrefix(key, "G:"), hi)
+		full = ghostSort(hi)
+		rowSort = ghostSort(heapInfo{ksorts: hi.ksorts[1:], elem: hi.elem})
+	case hi.indexed:
+		cur = x.arr(st, key, true, hi.elem)
+		full = fmt.Sprintf("(Array (_ BitVec 64) (Array (_ BitVec 64) %s))", hi.elem.name)
+		rowSort = fmt.Sprintf("(Array (_ BitVec 64) %s)", hi.elem.name)
+	default:
+		cur = x.arr(st, key, false, hi.elem)
+		full = fmt.Sprintf("(Array (_ BitVec 64) %s)", hi.elem.name)
+		rowSort = hi.elem.name
+	}
+	row := x.freshName("row_" + key)
+	x.declare(row, rowSort)
+	n := x.freshName("H_" + key + "_rv")
+	x.declare(n, full)
+	st.define(fmt.Sprintf("(= %s (store %s %s %s))", n, cur, base, row))
+	st.heap[key] = n
+}
+
+// havocTableLogs: a callee that may access a table also changes the log of the last atomic access to it.
+func (x *ctx) havocTableLogs(st *state, ghost string) {
+	var pfx string
+	switch ghost {
+	case "ghost_tbl":
+		pfx = "G:lp"
+	case "ghost_calls":
+		pfx = "G:clp"
+	default:
+		return
+	}
+	for _, suf := range []string{"Cur", "New", "Count"} {
+		x.havocKey(st, pfx+suf)
+	}
+}
+
 // havocMap havocs the contents (presence, values, cardinality) of the Go map at reference m only.
 func (x *ctx) havocMap(st *state, m term) {
 	var keys []string
@@ -1112,7 +1207,32 @@ func (x *ctx) callbackCall(st *state, fr *frame, cb *cbRef, args []val, rt types
 		}
 	}
 	for _, cl := range spec.Requires {
-		g := x.clauseL1(st, con, cl, cenv(cl))
+		var g val
+		if cl.Levels == 2 {
+			pc := x.pre.clone()
+			np := len(pc.pc)
+			l1 := x.clauseL1(pc, con, cl, env)
+			for id, v := range pc.cells {
+				if _, ok := st.cells[id]; !ok {
+					st.cells[id] = v
+				}
+			}
+			for _, f := range pc.pc[np:] {
+				if f.def {
+					st.define(f.t)
+				}
+			}
+			g = x.applyClosure(st, l1, cl.P3, func(name string, t types.Type) (val, bool) {
+				for i, pn := range cl.P3 {
+					if pn == name && i < len(args) {
+						return args[i], true
+					}
+				}
+				return env(name, t)
+			})
+		} else {
+			g = x.clauseL1(st, con, cl, cenv(cl))
+		}
 		x.oblige(st, "callback-requires", cl.Tag(), site, g.t.s, "")
 		st.assume(g.t.s)
 	}
@@ -1338,10 +1458,96 @@ func (x *ctx) localByName(st *state, fr *frame, at *ssa.BasicBlock, name string)
 // havocLoop havocs the heap keys and cells written inside the natural loop of header b.
 func (x *ctx) havocLoop(st *state, fr *frame, b *ssa.BasicBlock) {
 	blocks := loopBlocks(b)
-	ms := &modSet{keys: map[string]bool{}, cells: map[int]bool{}}
+	ms := &modSet{keys: map[string]bool{}, cells: map[int]bool{}, rows: map[string][]ssa.Value{}, inLoop: blocks}
 	for blk := range blocks {
 		for _, in := range blk.Instrs {
 			x.instrMods(fr, in, ms, 0)
+		}
+	}
+	// loads of loop-invariant fields used as bases
+	lazyTerms := map[string][]string{}
+	for _, lz := range ms.lazy {
+		if lz.cell != nil {
+			cp, bound := fr.regs[lz.cell]
+			if !bound || cp.ptr == nil || cp.ptr.cell == 0 || ms.cells[cp.ptr.cell] || ms.all {
+				ms.keys[lz.key] = true
+				continue
+			}
+			cvl, have := st.cells[cp.ptr.cell]
+			if !have || cvl.t.s == "" {
+				ms.keys[lz.key] = true
+				continue
+			}
+			lazyTerms[lz.key] = append(lazyTerms[lz.key], cvl.t.s)
+			if _, ok := ms.rows[lz.key]; !ok {
+				ms.rows[lz.key] = nil
+			}
+			continue
+		}
+		if ms.keys[lz.dep] || len(ms.rows[lz.dep]) > 0 || ms.all {
+			ms.keys[lz.key] = true
+			continue
+		}
+		ob, bound := fr.regs[lz.fa.X]
+		if !bound || ob.t.s == "" {
+			ms.keys[lz.key] = true
+			continue
+		}
+		stT := deref(lz.fa.X.Type()).Underlying().(*types.Struct)
+		ft := stT.Field(lz.fa.Field).Type()
+		srt, leaf := x.leafSort(ft)
+		if !leaf {
+			ms.keys[lz.key] = true
+			continue
+		}
+		bt := x.readLeafHeap(st, &loc{base: ob.t}, lz.dep, srt)
+		lazyTerms[lz.key] = append(lazyTerms[lz.key], bt.s)
+		if _, ok := ms.rows[lz.key]; !ok {
+			ms.rows[lz.key] = nil
+		}
+	}
+	// row-wise havoc for keys that are only written at loop-invariant bases
+	var rkeys []string
+	for k := range ms.rows {
+		rkeys = append(rkeys, k)
+	}
+	sort.Strings(rkeys)
+	for _, k := range rkeys {
+		if ms.keys[k] || ms.all {
+			continue
+		}
+		hi, ok := x.hinfo[x.akey(k)]
+		if !ok {
+			ms.keys[k] = true
+			continue
+		}
+		seenB := map[string]bool{}
+		for _, bv := range ms.rows[k] {
+			base, bound := fr.regs[bv]
+			if _, isC := bv.(*ssa.Const); isC {
+				base, bound = x.get(fr, st, bv), true
+			}
+			if !bound || base.t.s == "" || seenB[base.t.s] {
+				if !bound || base.t.s == "" {
+					ms.keys[k] = true
+				}
+				continue
+			}
+			seenB[base.t.s] = true
+		}
+		if ms.keys[k] {
+			continue
+		}
+		for _, lt := range lazyTerms[k] {
+			seenB[lt] = true
+		}
+		var bl []string
+		for bs := range seenB {
+			bl = append(bl, bs)
+		}
+		sort.Strings(bl)
+		for _, bs := range bl {
+			x.havocRow(st, k, hi, bs)
 		}
 	}
 	if ms.all {
@@ -1374,6 +1580,63 @@ type modSet struct {
 	keys  map[string]bool
 	cells map[int]bool
 	all   bool
+	// row-wise writes: heap key -> base values (objects / slices / maps) whose row is written; only used when the
+	// base is defined outside the loop
+	rows   map[string][]ssa.Value
+	inLoop map[*ssa.BasicBlock]bool
+	lazy   []lazyRow
+}
+
+type lazyRow struct {
+	key  string
+	cell ssa.Value // Alloc / FreeVar holding the base
+	fa   *ssa.FieldAddr
+	dep string // heap key of the field that is loaded; must not be written in the loop
+}
+
+// rowWrite records a write to the row of base in key; falls back to the whole key when base varies in the loop.
+func (ms *modSet) rowWrite(key string, base ssa.Value) {
+	if ms.rows == nil || ms.inLoop == nil {
+		ms.keys[key] = true
+		return
+	}
+	invariant := false
+	switch b := base.(type) {
+	case *ssa.Parameter, *ssa.FreeVar, *ssa.Const, *ssa.Global:
+		invariant = true
+	case ssa.Instruction:
+		invariant = !ms.inLoop[b.Block()]
+		if !invariant {
+			// a load of a field of a loop-invariant object (s.table): invariant if that field is not written in the loop
+			if u, ok := b.(*ssa.UnOp); ok && u.Op == token.MUL {
+				switch cv := u.X.(type) {
+				case *ssa.Alloc, *ssa.FreeVar:
+					// a load of a local / captured variable: invariant if the variable is not assigned in the loop
+					ms.lazy = append(ms.lazy, lazyRow{key: key, cell: cv})
+					return
+				}
+				if fa, ok := u.X.(*ssa.FieldAddr); ok {
+					inv2 := false
+					switch fb := fa.X.(type) {
+					case *ssa.Parameter, *ssa.FreeVar:
+						inv2 = true
+					case ssa.Instruction:
+						inv2 = !ms.inLoop[fb.Block()]
+					}
+					if inv2 {
+						stT := deref(fa.X.Type()).Underlying().(*types.Struct)
+						ms.lazy = append(ms.lazy, lazyRow{key: key, fa: fa, dep: structName(deref(fa.X.Type())) + "." + stT.Field(fa.Field).Name()})
+						return
+					}
+				}
+			}
+		}
+	}
+	if !invariant {
+		ms.keys[key] = true
+		return
+	}
+	ms.rows[key] = append(ms.rows[key], base)
 }
 
 func (x *ctx) addrKey(fr *frame, a ssa.Value, ms *modSet) {
@@ -1394,10 +1657,18 @@ func (x *ctx) addrKey(fr *frame, a ssa.Value, ms *modSet) {
 			return
 		}
 		key := structName(deref(v.X.Type())) + "." + stT.Field(v.Field).Name()
-		x.addLeafKeys(key, stT.Field(v.Field).Type(), ms)
+		if _, leaf := x.leafSort(stT.Field(v.Field).Type()); leaf && ms.rows != nil {
+			ms.rowWrite(key, v.X)
+		} else {
+			x.addLeafKeys(key, stT.Field(v.Field).Type(), ms)
+		}
 	case *ssa.IndexAddr:
 		elem := deref(v.Type())
-		ms.keys[x.elemKey(elem)] = true
+		if _, isSlice := v.X.Type().Underlying().(*types.Slice); isSlice && ms.rows != nil {
+			ms.rowWrite(x.elemKey(elem), v.X)
+		} else {
+			ms.keys[x.elemKey(elem)] = true
+		}
 	case *ssa.Alloc:
 		if r, ok := fr.regs[v]; ok && r.ptr != nil && r.ptr.cell > 0 {
 			ms.cells[r.ptr.cell] = true
@@ -1438,21 +1709,26 @@ func (x *ctx) instrMods(fr *frame, in ssa.Instruction, ms *modSet, depth int) {
 				return // a field of an object created in this very iteration: existing objects are untouched
 			}
 		}
+		if ia, ok := v.Addr.(*ssa.IndexAddr); ok {
+			if _, ok := ia.X.(*ssa.Alloc); ok {
+				return // an element of an array created in this very iteration (variadic argument packs)
+			}
+		}
 		x.addrKey(fr, v.Addr, ms)
 	case *ssa.Next:
 		ms.keys["G:visited"] = true
 	case *ssa.MapUpdate:
 		if mt, ok := v.Map.Type().Underlying().(*types.Map); ok {
 			if ks, ok := x.leafSort(mt.Key()); ok {
-				ms.keys[x.ghostKey(x.mapP(ks))] = true
+				ms.rowWrite(x.ghostKey(x.mapP(ks)), v.Map)
 				if vs, ok := x.leafSort(mt.Elem()); ok {
-					ms.keys[x.ghostKey(x.mapV(ks, vs))] = true
+					ms.rowWrite(x.ghostKey(x.mapV(ks, vs)), v.Map)
 				}
 			}
 		}
-		ms.keys["G:mapN"] = true
+		ms.rowWrite("G:mapN", v.Map)
 	case *ssa.MakeSlice, *ssa.Slice:
-		ms.keys["Len"] = true
+		// fresh references only
 	case *ssa.Send:
 		ms.keys["G:chanSent"] = true
 	case *ssa.Call:
@@ -1479,6 +1755,8 @@ func (x *ctx) contractMods(con *Contract, mods []*ModItem, ms *modSet) {
 			} else {
 				ms.keys[mi.Type+"."+mi.Field] = true
 			}
+		case "wholekey":
+			ms.keys[mi.Field] = true
 		case "mapof":
 			for k := range x.hinfo {
 				if strings.HasPrefix(k, "G:mapP_") || strings.HasPrefix(k, "G:mapV_") || k == "G:mapN" {
@@ -1534,12 +1812,12 @@ func (x *ctx) callMods(fr *frame, c *ssa.CallCommon, ms *modSet, depth int) {
 	}
 	switch v := c.Value.(type) {
 	case *ssa.Builtin:
-		if v.Name() == "append" || v.Name() == "copy" {
-			ms.keys["Len"] = true
+		if v.Name() == "copy" {
 			if sl, ok := c.Args[0].Type().Underlying().(*types.Slice); ok {
 				ms.keys[x.elemKey(sl.Elem())] = true
 			}
 		}
+		// append writes only the rows of the fresh slice it returns
 		if v.Name() == "delete" {
 			if mt, ok := c.Args[0].Type().Underlying().(*types.Map); ok {
 				if ks, ok := x.leafSort(mt.Key()); ok {
